@@ -1176,19 +1176,34 @@ class Symbolic(
     Returns:
       Formalized value that is ready for insertion as members.
     """
+    value = self._copy_if_attached(key, value)
+    if isinstance(value, TopologyAware):
+      value.sym_setpath(utils.KeyPath(key, self.sym_path))
+      value.sym_setparent(self._sym_parent_for_children())
+    return value
+
+  def _copy_if_attached(self, key: Union[str, int], value: Any) -> Any:
+    """Returns a copy of a symbolic value that belongs to another location.
+
+    NOTE(daiyip): make a copy of symbolic object if it belongs to another
+    object tree, this prevents it from having multiple parents. This is also
+    called before the value is validated against the field it is assigned to,
+    since applying a value spec modifies a container in place (binding the
+    spec, filling defaults), which must not happen to a member of another tree.
+
+    Args:
+      key: Key used to insert the value.
+      value: value to be inserted.
+
+    Returns:
+      `value` or a shallow copy of it.
+    """
     if isinstance(value, Symbolic):
-      # NOTE(daiyip): make a copy of symbolic object if it belongs to another
-      # object tree, this prevents it from having multiple parents. See
-      # List._formalized_value for similar logic.
       root_path = utils.KeyPath(key, self.sym_path)
       if (value.sym_parent is not None and
           (value.sym_parent is not self
            or root_path != value.sym_path)):
         value = value.clone()
-
-    if isinstance(value, TopologyAware):
-      value.sym_setpath(utils.KeyPath(key, self.sym_path))
-      value.sym_setparent(self._sym_parent_for_children())
     return value
 
   def _sym_parent_for_children(self) -> Optional['Symbolic']:
